@@ -16,7 +16,9 @@ CLAIMS = {
          "the RFC 8259 number automaton NUM (coupling invariant between the nine scanner states and the automaton, unbounded length; "
          "two recorded findings: 0eN rejected, exponents above 2^40), to return a number in normal form (digits only, no leading zero, "
          "no trailing fraction zero, zero unsigned) with LengthOfFractionalPart = its fraction length, and never to panic outside the recorded "
-         "exponent-magnitude finding. Not decided: that the normalised digits denote the text's value (exponent shifting) and String().",
+         "exponent-magnitude finding; the normalised representation is proved to denote exactly the value written in the text "
+         "(mantissa digits x 10^(exponent - fraction digits), all three exponent-alignment cases and both trimming loops, by scaling lemmas), "
+         "so Cmp/Equal and the ordering predicates on two parsed texts decide the exact rational order of what the texts denote. Not decided: String().",
          "5 C13", "weakest-precondition VCs over go/ssa + SMT (deductive, loop invariants, lemma hints)"),
  "C19": ("Every method of the three generated ordered maps (RuleASTNodes, ASTNodes, Constraints: Set, Update, Get, GetValue, Has, Len, "
          "Delete, Filter, Find, Each, EachSafe, Map) and of StringSet (Add, Has, Len, Data) is proved against the insertion-ordered "
